@@ -492,7 +492,16 @@ func RulePF1(c *Ctx) {
 							}
 							for _, f := range members {
 								grow := kind.m[f]
-								if !cf.MustAt(ret, nil, func(x ast.Node) bool { return x == grow }, nil) {
+								if !cf.MustAt(ret, nil, func(x ast.Node) bool {
+									hit := false
+									ast.Inspect(x, func(y ast.Node) bool {
+										if y == grow {
+											hit = true
+										}
+										return !hit
+									})
+									return hit
+								}, nil) {
 									bad = fmt.Sprintf("the success return at %s is reached without the append to %s", c.P.Pos(ret.Pos()), f.Name())
 								}
 							}
